@@ -3,8 +3,9 @@ generators never produce (found with Go block coverage):
 
   options    IncludeStdLib / IncludeThirdParty / FollowRelative / exclude patterns (hook op imports_x), against the
              option-parametrised model Deps/ImportsOpt.v and the specification edges_py_o
-  guards     `if` / `elif` conditions that mention TYPE_CHECKING inside and / or / == / is / not (isTypeCheckingCondition,
-             containsTypeChecking), against Deps/TcGuard.v; the value of every condition is also taken from python3
+  guards     `if` / `elif` conditions that mention TYPE_CHECKING inside and / or / == / is / not / parentheses, with the guarded
+             statement in the body, the else or a later elif branch (isTypeCheckingCondition, isNotTypeCheckingCondition,
+             runtimeValue), against Deps/TcGuard.v; the value of every condition is also taken from python3
   namespace  directories without __init__.py (PEP 420), with the default options and with the options of
              `pyscn check --select deps`; also through ModuleAnalyzer.AnalyzeProject the way `check` runs it
   prefix     the import root lies below the directory findProjectRoot picks (src layout, every marker file)
@@ -27,28 +28,51 @@ REQX = ("From Coq Require Import NArith ZArith QArith List Bool.\nImport ListNot
         "From PV Require Import Deps.PyImport Deps.Imports Deps.Metrics Deps.ImportsWf Deps.ImportsRun Deps.ImportsOpt "
         "Deps.TcGuard Deps.ImportsOptRun.\nOpen Scope N_scope.")
 
-XCLASS = {5: "wildcard-reexport", 6: "namespace-package-no-third-party", 7: "tc-guard-compound", 8: "import-root-below-project-root",
-          9: "shadowed-module-file"}
+XCLASS = {5: "wildcard-reexport", 8: "import-root-below-project-root"}
 MARKERS = ["setup.py", "pyproject.toml", "setup.cfg", ".git", "requirements.txt"]
 
-T, F = ("flag", True), ("flag", False)
+T, F = ("flag", True), ("flag", False)          # names the analyser knows nothing about: FLAG = True, NOFLAG = False at run time
+CT, CF = ("const", True), ("const", False)      # the literals True / False
 TC, TCA = ("tc",), ("tca",)
-# (condition, where the import stands, the analyser and Python agree)
+# (condition, where the import stands, how the code before fix baf3931 (F63) read it: True = as Python runs it).
+# The analyser decides a condition by its value with TYPE_CHECKING = False and every other name unknown; where that value
+# is unknown it counts both branches, so, as for every other position of this check, the names have the values that
+# make the statement run.  Every entry must be read as Python runs it (checked against python3 in decide_extra).
 GUARDS = [
-    (("and", TC, T), "if", True), (("and", T, TCA), "if", True), (("or", ("and", TC, T), F), "if", True),
-    (("or", F, ("and", T, TCA)), "elif", True), (("or", TCA, F), "if", True), (("eq", TC, T), "if", True),
+    # type-checking-only: certainly false / in the else or elif branch of a condition that is certainly true
+    (("and", TC, T), "if", True), (("and", T, TCA), "if", True), (("or", ("and", TC, T), CF), "if", True),
+    (("or", CF, ("and", T, TCA)), "elif", True), (("or", TCA, CF), "if", True), (("eq", TC, CT), "if", True),
+    (("and", TCA, ("not", F)), "elif", True), (("isnot", TC, CF), "if", True), (("and", TC, ("or", T, TCA)), "if", True),
+    (("paren", TC), "if", False), (("paren", ("and", TCA, T)), "elif", False), (("not", ("not", TCA)), "if", False),
+    (("not", ("or", ("not", TC), CF)), "if", False), (("ne", ("not", TC), CT), "elif", True),
+    (("not", TC), "else", False), (("not", TCA), "orelif", False), (("or", TC, CT), "else", False), (("eq", TC, CF), "orelif", False),
+    (("is", ("paren", TCA), CF), "else", False), (("not", ("and", TC, T)), "else", False), (("or", T, ("not", TC)), "orelif", False),
+    # runtime code
     (("not", ("and", TC, T)), "if", True), (("not", TC), "elif", True), (("and", TC, T), "else", True), (TC, "else", True),
-    (("and", TCA, ("not", F)), "elif", True), (("isnot", TC, F), "if", True),
-    (("or", TC, T), "if", False), (("or", T, TCA), "elif", False), (("eq", TC, F), "if", False), (("is", TCA, F), "if", False),
-    (("ne", TC, T), "if", False), (("isnot", TC, T), "elif", False), (("and", ("not", TC), T), "if", False),
-    (("and", T, ("not", TCA)), "elif", False), (("eq", ("not", TC), T), "if", False), (("or", TC, T), "else", False),
-    (("and", T, ("eq", F, TC)), "if", False),
+    (("and", TC, T), "orelif", True), (("paren", TCA), "else", True), (("or", TC, F), "else", True), (("eq", TC, CT), "orelif", True),
+    # runtime code: the inputs that exposed F63
+    (("or", TC, T), "if", False), (("or", T, TCA), "elif", False), (("or", ("and", TC, T), T), "if", False),
+    (("eq", TC, F), "if", False), (("eq", TC, CF), "if", False), (("is", TCA, F), "if", False), (("is", TCA, CF), "elif", False),
+    (("ne", TC, T), "if", False), (("ne", TC, CT), "if", False), (("isnot", TC, T), "elif", False), (("isnot", TCA, CT), "if", False),
+    (("and", ("not", TC), T), "if", False), (("and", T, ("not", TCA)), "elif", False), (("eq", ("not", TC), T), "if", False),
+    (("eq", ("not", TC), CT), "if", False), (("and", T, ("eq", F, TC)), "if", False), (("and", T, ("eq", CF, TC)), "elif", False),
+    (("or", TC, CT), "if", False), (("or", ("eq", TCA, CF), F), "if", False),
 ]
 
 
 def B():
     import c12
     return c12
+
+
+def old_reading(g):
+    """isTypeCheckingCondition before fix baf3931: the bare name / attribute, or an `and` / `or` / comparison that mentions it
+    anywhere (parentheses and `not` at the top were not looked through)"""
+    def mentions(x):
+        return x[0] in ("tc", "tca") or any(mentions(y) for y in x[1:] if isinstance(y, tuple))
+    if g[0] in ("tc", "tca"):
+        return True
+    return g[0] in ("and", "or", "eq", "is", "ne", "isnot") and mentions(g)
 
 
 # ----------------------------------------------------------------------------------------------------
@@ -62,35 +86,30 @@ def X(family, mods, mode="clean", **kw):
 
 
 def guards_projects():
+    """one project: every condition of GUARDS guards one statement at three places of a top-level module (module level, in a
+    def, in a try) and one relative import inside a package; any difference from Python's graph is a violation"""
     b = B()
-    out = []
-    for agree_only in (True, False):
-        mods, stmts = [], []
-        k = 0
-        for g, gpos, agrees in GUARDS:
-            if agree_only and not agrees:
-                continue
-            for pos in ("PModule", "PDef", "PTry"):
-                k += 1
-                t = "g%02d" % k
-                mods.append(b.mod((t,)))
-                s = b.st("abs", (t,), pos=pos) if k % 2 else b.st("from", (t,), [("fa", "fa")], pos=pos)
-                s["guard"], s["guard_pos"] = g, gpos
-                stmts.append(s)
-        mods.append(b.mod(("pkg",), pkg=True))
-        inner = []
-        for j, (g, gpos, agrees) in enumerate(GUARDS):
-            if agree_only and not agrees:
-                continue
-            t = "r%02d" % j
-            mods.append(b.mod(("pkg", t)))
-            s = b.st("rel", () if j % 2 else (t,), [(t, t)] if j % 2 else [("fb", "fb")], level=1)
+    mods, stmts = [], []
+    k = 0
+    for g, gpos, _ in GUARDS:
+        for pos in ("PModule", "PDef", "PTry"):
+            k += 1
+            t = "g%03d" % k
+            mods.append(b.mod((t,)))
+            s = b.st("abs", (t,), pos=pos) if k % 2 else b.st("from", (t,), [("fa", "fa")], pos=pos)
             s["guard"], s["guard_pos"] = g, gpos
-            inner.append(s)
-        mods.append(b.mod(("pkg", "walker"), stmts=inner))
-        mods.append(b.mod(("walker",), stmts=stmts))
-        out.append(X("guards", mods, agree_only=agree_only, oracle=False, marker=MARKERS[0 if agree_only else 1]))
-    return out
+            stmts.append(s)
+    mods.append(b.mod(("pkg",), pkg=True))
+    inner = []
+    for j, (g, gpos, _) in enumerate(GUARDS):
+        t = "r%02d" % j
+        mods.append(b.mod(("pkg", t)))
+        s = b.st("rel", () if j % 2 else (t,), [(t, t)] if j % 2 else [("fb", "fb")], level=1)
+        s["guard"], s["guard_pos"] = g, gpos
+        inner.append(s)
+    mods.append(b.mod(("pkg", "walker"), stmts=inner))
+    mods.append(b.mod(("walker",), stmts=stmts))
+    return [X("guards", mods, agree_only=True, oracle=False, marker=MARKERS[1])]
 
 
 def sanitize_for_prefix(mods):
@@ -192,13 +211,29 @@ def stdlibname_project(rng):
     return mods
 
 
-def shadow_project(rng):
+def shadow_project(rng, variant):
+    """m.py next to m/__init__.py: Python imports the package, the file is dead.  Returns (modules, modules Python can import)"""
     b = B()
     st, mod = b.st, b.mod
-    mods = [mod(("dup",), stmts=[st("abs", ("user",)), st("from", ("lib",), ["fa"])]),        # dup.py, shadowed by dup/
-            mod(("dup",), pkg=True, stmts=[st("abs", ("lib",))]), mod(("dup", "part")),
-            mod(("user",), stmts=[st("abs", ("dup",)), st("from", ("dup",), ["part"])]), mod(("lib",)), mod(("other",), stmts=[st("abs", ("dup", "part"))])]
-    return mods
+    if variant == 0:
+        mods = [mod(("dup",), stmts=[st("abs", ("user",)), st("from", ("lib",), ["fa"])]),        # dup.py, shadowed by dup/
+                mod(("dup",), pkg=True, stmts=[st("abs", ("lib",))]), mod(("dup", "part")),
+                mod(("user",), stmts=[st("abs", ("dup",)), st("from", ("dup",), ["part"])]), mod(("lib",)), mod(("other",), stmts=[st("abs", ("dup", "part"))])]
+        dead = [("dup",)]
+    elif variant == 1:
+        # inside a package, the dead file would close a cycle; relative imports on both sides
+        mods = [mod(("pk",), pkg=True), mod(("pk", "dup"), stmts=[st("rel", (), ["client"], level=1), st("rel", ("client",), ["fa"], level=1)]),
+                mod(("pk", "dup"), pkg=True, stmts=[st("rel", ("helper",), ["fb"], level=2)]), mod(("pk", "dup", "inner")),
+                mod(("pk", "client"), stmts=[st("rel", (), ["dup"], level=1), st("from", ("pk", "dup"), ["inner"])]), mod(("pk", "helper")),
+                mod(("top",), stmts=[st("from", ("pk",), ["dup"]), st("abs", ("pk", "dup", "inner"))])]
+        dead = [("pk", "dup")]
+    else:
+        # two shadowed files; the dead files import each other and a live module
+        mods = [mod(("a",), stmts=[st("abs", ("b",)), st("abs", ("live",))]), mod(("a",), pkg=True),
+                mod(("b",), stmts=[st("abs", ("a",))]), mod(("b",), pkg=True, stmts=[st("abs", ("live",), pos=b.rand_position(rng))]),
+                mod(("b", "sub")), mod(("live",), stmts=[st("from", ("b",), ["sub"]), st("abs", ("a",))])]
+        dead = [("a",), ("b",)]
+    return mods, [m for m in mods if not (m["path"] in dead and not m["pkg"])]
 
 
 def broken_project(rng):
@@ -280,8 +315,9 @@ def extra_projects(rng, thorough):
         mods = stdlibname_project(rng)
         xs.append(X("stdlibname", mods))
         xs.append(X("stdlibname", mods, opts=dict(stdlib=True, third=False, rel=True, excl=[]), oracle=False))
-    mods = shadow_project(rng)
-    xs.append(X("shadow", mods, spec_mods=[m for m in mods if not (m["path"] == ("dup",) and not m["pkg"])], both_orders=True))
+    for variant in (0, 1, 2):
+        mods, live = shadow_project(rng, variant)
+        xs.append(X("shadow", mods, spec_mods=live, oracle_mods=live, both_orders=True))
     for k in range(6 if thorough else 2):
         xs.append(X("broken", broken_project(rng), both_orders=True, project_run=(k == 0)))
     xs.append(X("deeprel", deeprel_project()))
@@ -414,9 +450,8 @@ def prepare_extra(ck, rng, nm, work, thorough):
             ok = "error" not in r and all(a in nodes and b_ in nodes for a, b_ in r.get("edges", []))
             dag = ok and b.longest_path_dag(sorted(set(nodes)), [tuple(e) for e in r["edges"]]) is not None
             spec_mods = x["spec_mods"] or x["mods"]
-            tcs = clist(["(%s, %s)" % b.tc_terms(s) for m in x["mods"] for s in m["stmts"] if s.get("guard") is not None])
-            body += "Eval vm_compute in run_project_x %s %s %s %s %s %s.\n" % (
-                "true" if dag else "false", coq_opts(nm, x["opts"]), nm.path(pre), tcs, b.coq_project(nm, x["mods"], "model"),
+            body += "Eval vm_compute in run_project_x %s %s %s %s %s.\n" % (
+                "true" if dag else "false", coq_opts(nm, x["opts"]), nm.path(pre), b.coq_project(nm, x["mods"], "model"),
                 b.coq_project(nm, spec_mods, "spec"))
             body += "Eval vm_compute in run_resolve_x %s.\n" % b.coq_project(nm, spec_mods, "spec")
         jobs.append(("C12_x_%d" % off, REQX, body))
@@ -434,15 +469,21 @@ def decide_extra(ck, nm, work, xs, outs):
     if len(vals) != 2 * len(xs):
         ck.broken_ties.append("option-dependent model: %d Coq values for %d projects" % (len(vals), len(xs)))
         return stats
-    # ---- the conditions: Coq's eval_guard against python3, the model's reading as expected by the table ----
+    # ---- the conditions: Coq's eval_guard against python3; the model's reading (runtimeValue) must be Python's for every
+    # entry of the table, and must differ from the reading of the code before the fix exactly where the table says so ----
     gv = lib.parse_coq_values(outs[-1])[0]
-    for (g, gpos, agrees), (ev, isTc) in zip(GUARDS, gv):
+    for (g, gpos, old_ok), (ev, isTc, isNotTc) in zip(GUARDS, gv):
         stats["guards"] += 1
         if ev != b.guard_python(g):
             ck.broken_ties.append("specification eval_guard disagrees with python3 on `%s`: python %s, Coq %s" % (b.guard_text(g), b.guard_python(g), ev))
-        model_tc, spec_tc = (False, ev) if gpos == "else" else (isTc, not ev)
-        if (model_tc == spec_tc) != agrees:
-            ck.broken_ties.append("guard table of the check is wrong for `%s` (%s)" % (b.guard_text(g), gpos))
+        model_tc, spec_tc = (isNotTc, ev) if gpos in ("else", "orelif") else (isTc, not ev)
+        if model_tc != spec_tc:
+            ck.broken_ties.append("Deps/TcGuard.v reads `%s` (%s) as %s, python3 %s the statement" % (
+                b.guard_text(g), gpos, "type-checking-only" if model_tc else "runtime code", "does not run" if spec_tc else "runs"))
+        old_tc = False if gpos in ("else", "orelif") else old_reading(g)
+        if (old_tc == spec_tc) != old_ok:
+            ck.broken_ties.append("guard table of the check is wrong for `%s` (%s): the code before the fix %s" % (
+                b.guard_text(g), gpos, "agreed" if old_tc == spec_tc else "disagreed"))
 
     def edge_set(es):
         return {(nm.unpath(a), nm.unpath(b_)) for a, b_ in es}
@@ -545,10 +586,9 @@ def decide_extra(ck, nm, work, xs, outs):
                 ck.violation("ModuleAnalyzer.AnalyzeProject (the way `pyscn check --select deps` runs it): %s"
                              % (r.get("project_error") or "modules %s, project %s" % (r.get("project_modules"), nodes)), replay)
                 continue
-            # the same graph as AnalyzeFiles: with the same options always, with other include options whenever every module
-            # directory has an __init__.py (Props/C12.v C12_include_options_irrelevant)
-            same_opts = x["opts"] == dict(stdlib=False, third=False, rel=True, excl=[])
-            if pe != ie and (same_opts or fam != "namespace"):
+            # the same graph as AnalyzeFiles, whatever include_third_party is (Props/C12.v C12_include_third_party_irrelevant;
+            # include_stdlib is false in both runs)
+            if pe != ie:
                 ck.violation("AnalyzeProject (options of `pyscn check`) and AnalyzeFiles give different graphs: %s" % sorted(pe ^ ie), replay)
                 continue
         pkgs = {".".join(pre + list(m["path"])) for m in mods if m["pkg"]}
